@@ -474,8 +474,9 @@ def elaborate(stmts):
 def u_matrix(theta, phi, lam):
     """U(theta,phi,lambda) := Rz(phi) Ry(theta) Rz(lambda)   (eq. (2) of the specification)"""
     c, s = math.cos(theta / 2), math.sin(theta / 2)
-    return np.array([[cmath.exp(-1j * (phi + lam) / 2) * c, -cmath.exp(-1j * (phi - lam) / 2) * s],
-                     [cmath.exp(1j * (phi - lam) / 2) * s, cmath.exp(1j * (phi + lam) / 2) * c]])
+    rz = lambda a: np.array([[cmath.exp(-1j * a / 2), 0], [0, cmath.exp(1j * a / 2)]])
+    # the product form keeps huge angles exact: exp(-i(phi+lambda)/2) would round phi+lambda first
+    return rz(phi) @ np.array([[c, -s], [s, c]], dtype=complex) @ rz(lam)
 
 
 def apply1(psi, M, q, n):
